@@ -10,6 +10,7 @@ package main
 import (
 	"fmt"
 	"github.com/refraction-networking/conjure/pkg/phantoms"
+	"github.com/refraction-networking/conjure/pkg/zzverif/vsched"
 	"io"
 	"net"
 	"net/netip"
@@ -17,6 +18,7 @@ import (
 	"regexp"
 	"strings"
 	"syscall"
+	"time"
 
 	"github.com/refraction-networking/conjure/pkg/station/lib"
 	"github.com/refraction-networking/conjure/pkg/zzverif/venum"
@@ -222,7 +224,7 @@ func main() {
 	sel := vfix.Selector(vfix.SubnetsTOML)
 	cs := coverts()
 	idx := 0
-	if !reloadPass(e, a, sel) {
+	if !reregPass(e, a, sel) || !reloadPass(e, a, sel) {
 		vnet.ResolveHook, vnet.DialHook = nil, nil
 		e.Finish()
 		return
@@ -388,6 +390,96 @@ done:
 	vnet.ResolveHook, vnet.DialHook = nil, nil
 	_ = io.Discard
 	e.Finish()
+}
+
+// reregPass: one client registers twice with the same secret, transport and phantom - first naming a covert the
+// policy refuses, then (after 0 s .. 9 min of virtual time, within the first record's lifetime) a permitted one, and the
+// other way round. Whatever registration is usable afterwards, the address the relay dials for it must pass the policy.
+func reregPass(e *venum.E, a *vh.Args, sel *phantoms.PhantomIPSelector) bool {
+	vsched.SetManualClock(true)
+	defer vsched.SetManualClock(false)
+	bad := []string{"10.0.0.1:443", "127.0.0.1:443", "[fd12:3456::1]:443", "[::1]:443", "blocked.example:443"}
+	good := []string{"93.184.216.34:443", "[2606:2800:220:1::1]:443"}
+	vnet.ResolveHook = func(network, host string) (*net.IPAddr, error) {
+		return &net.IPAddr{IP: net.ParseIP("10.0.0.1")}, nil
+	}
+	idx := 0
+	for _, pol := range policies() {
+		ref := mkRef(pol)
+		for _, c1 := range bad {
+			for _, c2 := range good {
+				for _, gap := range []time.Duration{0, 20 * time.Second, time.Minute, 9 * time.Minute} {
+					for _, order := range []string{"refused-then-permitted", "permitted-then-refused"} {
+						idx++
+						if idx%a.ShardN != a.ShardI {
+							continue
+						}
+						if !e.Case() {
+							return false
+						}
+						id := fmt.Sprintf("reregister=%s;policy=%s;refused=%q;permitted=%q;gap=%v", order, pol.name, c1, c2, gap)
+						conf := &lib.RegConfig{EnableIPv4: true, EnableIPv6: true, CovertBlocklistSubnets: pol.block, CovertAllowlistSubnets: pol.allow, CovertBlocklistDomains: pol.domains}
+						if lib.VerifParseBlocklists(conf) != nil {
+							continue
+						}
+						var dialed []string
+						vnet.DialHook = func(network, address string) (net.Conn, error) {
+							dialed = append(dialed, address)
+							return nil, &net.OpError{Op: "dial", Net: network, Err: syscall.ECONNREFUSED}
+						}
+						first, second := c1, c2
+						if order == "permitted-then-refused" {
+							first, second = c2, c1
+						}
+						var usable *lib.DecoyRegistration
+						if p, msg, site := venum.Guard(func() {
+							rm := vfix.Manager(conf, sel, &vfix.Tester{}, vfix.Transports{Min: true}, nil)
+							var sink []lib.VerifDetectorMsg
+							rm.VerifCaptureDetector(&sink)
+							var last *lib.DecoyRegistration
+							for i, c := range []string{first, second} {
+								if i == 1 {
+									vsched.ManualAdvance(gap)
+								}
+								m := vfix.Msg{Secret: vfix.Secret(5), Transport: pb.TransportType_Min, V4: true, Gen: 1, LibVer: 4, Covert: c, Source: pb.RegistrationSource_API, Addr: []byte{203, 0, 113, 7}}
+								regs, err := rm.VerifParseRegMessage(m.Bytes())
+								if err != nil || len(regs) != 1 {
+									return
+								}
+								rm.VerifIngest(regs[0])
+								last = regs[0]
+							}
+							if r, ok := rm.GetRegistrations(last.PhantomIp)[rm.VerifIdentifier(last)]; ok {
+								usable = r.(*lib.DecoyRegistration)
+								lib.Proxy(usable, nopConn{}, lib.VerifQuietLogger())
+							}
+						}); p {
+							e.Violation("panic:"+site, msg+" "+id, map[string]any{"case": id})
+							continue
+						}
+						if usable == nil {
+							if len(dialed) > 0 {
+								e.Violation("dial-without-admission", id, map[string]any{"case": id})
+							}
+							continue
+						}
+						e.Nontrivial(id)
+						for _, d := range dialed {
+							ap, err := netip.ParseAddrPort(d)
+							if err != nil {
+								e.Violation("dialed-not-literal", fmt.Sprintf("%s: dialed %q: %v", id, d, err), map[string]any{"case": id})
+								continue
+							}
+							if badAddr, why := ref.forbidden(ap.Addr()); badAddr {
+								e.Violation("forbidden-address-dialed:after-reregistration", fmt.Sprintf("%s: the usable registration holds %q, relay dialed %s which is %s", id, usable.Covert, d, why), map[string]any{"case": id})
+							}
+						}
+					}
+				}
+			}
+		}
+	}
+	return true
 }
 
 // reloadPass: the policy in force changes while the station runs (SIGHUP -> ParseConfig -> OnReload, as main() does).
